@@ -179,6 +179,8 @@ def gen_spec(rng, size=None, temporal=False):
         if c.single_own_key() and not c.attrs and rng.random() < 0.8:
             sp.sentences.append(domain_sentence(rng, c))
     n = size or rng.randrange(2, 7)
+    if rng.random() < 0.35:
+        sp.sentences.append(s_enum_tail(rng, sp))
     makers = [s_fact, s_choice_every, s_whenever_then, s_whenever_then_attr, s_constraint_there_is, s_constraint_clause, s_constraint_cmp,
               s_aggregate_count, s_definition_when, s_enumerative_where, s_preference]
     tries = 0
@@ -451,3 +453,60 @@ def s_preference(rng, sp):
     text = (f'It is preferred, with {pr} priority, that the number of {subj.name} that are {v} {prep} {o.name} {d} is {direction}, '
             f'whenever there is {article(o.name)} {o.name} {d}.')
     return Sentence(text, 'preference', author_vars=[d], uses=[subj.name, o.name, key])
+
+
+def s_enum_tail(rng, sp, bad=False):
+    """W7: `A drink is one of cola, beer, water and has price that is equal to respectively 3, 5, 2 [and also …].`
+    (an undeclared concept whose attributes all come from the sentence). bad=True: a tail shorter than the value list."""
+    used = {c.name for c in sp.concepts}
+    name = rng.choice([n for n in ['drink', 'fruit', 'tool', 'tier', 'brand'] if n not in used])
+    vals = rng.sample(['cola', 'beer', 'water', 'milk', 'tea'], rng.randrange(2, 5))
+    ntails = rng.choice([1, 1, 2])
+    tails = []
+    for i, an in enumerate(rng.sample(['price', 'size', 'rank'], ntails)):
+        k = len(vals) - (1 if (bad and i == ntails - 1) else 0)
+        link = 'and has' if i == 0 else 'and also'
+        be = rng.choice(['that is equal to respectively', 'that are equal to respectively'])
+        tails.append(f'{link} {an} {be} {", ".join(str(rng.randrange(1, 9)) for _ in range(k))}')
+    c = Concept(name)
+    c.keys = []
+    c.attrs = []
+    c.enum_tail = True
+    text = f'{article(name).capitalize()} {name} is one of {", ".join(vals)} ' + ' '.join(tails) + '.'
+    return Sentence(text, 'enum_tail_bad' if bad else 'enum_tail', defines=[name])
+
+
+FAULT_CLASSES = ['tail_size', 'undeclared_concept', 'missing_attribute', 'unknown_label', 'double_cardinality']
+
+
+def gen_faulty(rng):
+    """A specification with exactly one injected fault. Returns (Spec, fault class, index of the faulty sentence,
+    offending name)."""
+    sp = gen_spec(rng, size=rng.randrange(1, 4))
+    cls = rng.choice(FAULT_CLASSES)
+    c = rng.choice(sp.concepts)
+    name = None
+    if cls == 'tail_size':
+        s = s_enum_tail(rng, sp, bad=True)
+    elif cls == 'undeclared_concept':
+        name = rng.choice(['zorg', 'blip', 'quux', 'gadget'])
+        s = Sentence(f'It is prohibited that there is {article(name)} {name} with id 1.', 'fault', uses=[name])
+    elif cls == 'missing_attribute':
+        name = rng.choice(['altitude', 'colour', 'vintage'])
+        s = Sentence(f'It is prohibited that there is {article(c.name)} {c.name} with {name} 3.', 'fault', uses=[c.name])
+    elif cls == 'unknown_label':
+        name = rng.choice(['QQ', 'ZK', 'LBL'])
+        d = rng.choice(sp.concepts)
+        s = Sentence(f'It is prohibited that {name} is chosen, whenever there is {article(d.name)} {d.name} X.', 'fault',
+                     uses=[d.name], author_vars=['X'])
+        if 'chosen' not in sp.verbs:
+            sp.sentences.append(Sentence(f'Every {d.name} can be chosen.', 'choice', uses=[d.name], defines=['chosen']))
+    else:
+        d = [x for x in sp.concepts if x is not c]
+        o = d[0] if d else c
+        s = Sentence(f'Every {c.name} can be exactly 1 wired to at most 2 {o.name}.', 'fault', uses=[c.name, o.name])
+    pos = len(sp.sentences)
+    if rng.random() < 0.5 and pos > len(sp.concepts) + 1:
+        pos = rng.randrange(len([x for x in sp.sentences if x.kind in ('declaration', 'constant')]), pos + 1)
+    sp.sentences.insert(pos, s)
+    return sp, cls, pos, name
